@@ -417,6 +417,7 @@ type FuncContract struct {
 	NoOverflow bool
 	MayPanic   bool // callers must not rely on absence of panics
 	NoPanicCheck bool // do not emit nopanic obligations (functional contract only)
+	DataInv    []Clause // representation invariant: assumed at entry and after every abstracted call, proved at exit
 	Inducts    []*SpecFunc // induct name(vars..., n): P  -- proved by induction on n from 0, then assumed
 	RecSpecs   []*SpecFunc // function-local recursive spec functions over the entry state
 	MakeBound  *Clause  // every make() in the body allocates at most this many elements
@@ -454,7 +455,13 @@ type SplitSpec struct {
 	Lo, Hi int64
 }
 
+type GlobalInv struct {
+	Pkg string
+	C   Clause
+}
+
 type ContractFile struct {
+	Globals []GlobalInv
 	Pkg    string
 	Funcs  []*FuncContract
 	Specs  []*SpecFunc
@@ -462,10 +469,10 @@ type ContractFile struct {
 	Lemmas []*Lemma
 }
 
-var clauseKW = map[string]bool{"func": true, "spec": true, "uf": true, "lemma": true, "axiom": true,
+var clauseKW = map[string]bool{"global": true, "func": true, "spec": true, "uf": true, "lemma": true, "axiom": true,
 	"props": true, "requires": true, "ensures": true, "panics": true, "modifies": true, "loop": true,
 	"inline": true, "assumed": true, "pure": true, "nooverflow": true, "maypanic": true, "nopaniccheck": true,
-	"split": true, "excuse": true, "makebound": true, "recspec": true, "induct": true}
+	"split": true, "excuse": true, "makebound": true, "recspec": true, "induct": true, "datainv": true}
 
 var labelRe = regexp.MustCompile(`^([A-Za-z_][A-Za-z0-9_]*):\s+(.*)$`)
 
@@ -579,6 +586,13 @@ func parseContractFile(path, pkg string) (*ContractFile, error) {
 			curLemma = &Lemma{Name: strings.TrimSpace(rest[:k]), Pkg: pkg, E: e, Src: strings.TrimSpace(rest[k+1:]), Pos: pos, Axiom: kw == "axiom"}
 			cf.Lemmas = append(cf.Lemmas, curLemma)
 			cur = nil
+		case "global":
+			c, err := mkClause(rest, ll.line)
+			if err != nil {
+				return nil, err
+			}
+			cf.Globals = append(cf.Globals, GlobalInv{Pkg: pkg, C: c})
+			cur, curLemma = nil, nil
 		case "props":
 			if cur != nil {
 				cur.Props = strings.Fields(rest)
@@ -636,6 +650,12 @@ func parseContractFile(path, pkg string) (*ContractFile, error) {
 					return nil, err
 				}
 				cur.MakeBound = &c
+			case "datainv":
+				c, err := mkClause(rest, ll.line)
+				if err != nil {
+					return nil, err
+				}
+				cur.DataInv = append(cur.DataInv, c)
 			case "requires", "ensures", "panics", "modifies", "excuse":
 				if kw == "modifies" {
 					cur.HasModifies = true
